@@ -20,6 +20,7 @@ import Drivers.Subdiv
 import Drivers.Collapse
 import Drivers.Quality
 import Drivers.Unit
+import Drivers.Kexact
 
 /-! `refdrv <driver> [args]` : dispatch to a line-protocol driver. One match arm per driver, on one line. -/
 
@@ -45,6 +46,7 @@ def main (args : List String) : IO UInt32 := do
   | "collapse" :: rest => Drivers.Collapse.run rest
   | "quality" :: rest => Drivers.Quality.run rest
   | "unit" :: rest => Drivers.Unit.run rest
+  | "kexact" :: rest => Drivers.Kexact.run rest
   | _ =>
     IO.eprintln s!"refdrv: unknown driver {args}"
     return 2
